@@ -14,6 +14,7 @@ What is proved here, over the statement-by-statement models of `Format` (Model.l
     (`fmt_preserves_tokens_partial`, `fmt_idempotent_partial`).
 -/
 import CaddyModel.Gen.FmtCmd
+import CaddyModel.Gen.HeredocEnd
 import CaddyModel.C17.Glue
 import CaddyModel.C17.Lemmas
 import CaddyModel.C17.LexLemmas
@@ -259,5 +260,48 @@ theorem fmt_glue_matches_source :
     Gen.adaptBodyUses = ["Parse(filename,body)", "FormattingDifference(filename,body)"] ∧
     Gen.formattingDifferenceDataFlow =
       ["v1 = bytes.Replace(body,?(\"\\r\\n\"),?(\"\\n\"),-1)", "v0 = Format(v1)", "bytes.Equal(v0,v1)"] := by decide
+
+/-! ### the heredoc-end rule exists twice: lexer.go (*lexer).next and the formatter's own copy -/
+
+/-- **the two copies decide the same way.**  On a heredoc body line `l` (everything read since
+    the last newline) the formatter ends the heredoc iff its sliding window
+    `heredocClosingMarker` equals the marker (`closingWindow`, `pushClosing` per rune); the
+    lexer ends it iff the text read so far ends with the marker (`endsWith`).  For every marker
+    and every line the two tests agree — glued to a longer word (`seeEOF`) or not. -/
+theorem heredoc_end_rules_agree (m l : List Rune) :
+    (closingWindow m l == m) = endsWith l m := by
+  rw [closingWindow_eq]
+  unfold endsWith
+  by_cases h : m.length ≤ l.length
+  · simp [h]
+  · have h3 : l.length - m.length = 0 := by omega
+    have hne : l ≠ m := by intro e; rw [e] at h; omega
+    simp [h, h3, hne]
+
+example : (closingWindow ("EOF".toList.map Char.toNat) ("  seeEOF".toList.map Char.toNat)
+            == "EOF".toList.map Char.toNat) = true ∧
+          endsWith ("  seeEOF".toList.map Char.toNat) ("EOF".toList.map Char.toNat) = true ∧
+          endsWith ("  seeEO".toList.map Char.toNat) ("EOF".toList.map Char.toNat) = false := by decide
+
+/-- **source fact** (regenerated from the tree under test on every run, `Gen/HeredocEnd.lean`):
+    the block of `(*lexer).next` that reads a heredoc body and the formatter's own copy of it
+    are the ones modelled by `Lexer.nextStep` (`endsWith`) and `Model.stepHeredoc`
+    (`pushClosing … == marker`, window cleared at a newline) — normalised source text, locals
+    renamed in order of appearance.  An edit of ONE of the two sites (say the lexer's marker
+    must stand alone) breaks this theorem by name, whatever the generator finds. -/
+theorem heredoc_end_rule_matches_source :
+    Gen.lexerHeredocEndCond = "len(v1) >= len(v4) && v4 == string(v1[len(v1)-len(v4):])" ∧
+    Gen.formatterHeredocEndCond = "slices.Equal(v1, v3)" ∧
+    Gen.lexerHeredocBlock =
+      ["if v0 {", "v1 = append(v1, v2)", "if v2 == '\\n' {", "v3.skippedLines++", "}",
+       "if len(v1) >= len(v4) && v4 == string(v1[len(v1)-len(v4):]) {",
+       "v1, v5 = v3.finalizeHeredoc(v1, v4)", "if v5 != nil {", "return false, v5", "}",
+       "v3.line += v3.skippedLines", "v3.skippedLines = 0", "return v6('<'), nil", "}",
+       "continue", "}"] ∧
+    Gen.formatterHeredocBlock =
+      ["if v0 == heredocOpened {", "v1 = append(v1, v2)", "if len(v1) > len(v3) {", "v1 = v1[1:]", "}",
+       "v4(v2)", "if slices.Equal(v1, v3) {", "v3 = nil", "v1 = nil", "v0 = heredocClosed", "v5 = true",
+       "} else if v2 == '\\n' {", "v1 = v1[:0]", "}", "continue", "}"] := by decide
+
 
 end CaddyModel.C17
